@@ -47,10 +47,13 @@ def accepted_metrics():
             # called with a one-entry prediction dict), never read off private attributes of the wrapper.
             probe_log = []
             m._sim_log = probe_log
-            try:
-                w(0, {"output": 0})
-            except Exception:  # noqa: BLE001
-                pass
+            for probe_value in (0.4375, 0.8125):      # values no earlier (validation) call can have used
+                try:
+                    w(0, {"output": probe_value})
+                except Exception:  # noqa: BLE001
+                    pass
+                if probe_log:
+                    break
             m._sim_log = None
             dict_input = any(ev[0] in ("U", "UX") and any(
                 isinstance(a, tuple) and len(a) == 2 and a[0] == "y_pred" and isinstance(a[1], tuple) and a[1][:1] == ("dict",)
@@ -64,11 +67,57 @@ def accepted_metrics():
     return _ACCEPTED
 
 
-_REC_CACHE = {}
+class _Recorder:
+    """Factory of recording metrics: a REAL instance of the real river class whose bound `update`, `revert` and `get`
+    are shadowed by instance attributes that log and delegate.  The type of the object - and everything a library might
+    derive from it (`type(m)`, `vars(type(m))`, the MRO, `isinstance`) - stays exactly that of the metric under test;
+    river's own internal calls (`super().get()` ...) are not logged."""
+
+    def __init__(self, cls):
+        self.cls = cls
+
+    def __call__(self, **args):
+        cls = self.cls
+        m = cls(**args)
+        m._sim_log = None
+        real_update, real_revert, real_get = m.update, m.revert, m.get
+
+        def update(*a, **k):
+            try:
+                out = real_update(*a, **k)
+            except Exception:
+                # a rejected update (the validation probe feeds a scalar to a dict metric on purpose) is not an
+                # applied one; whether it left the metric dirty is judged by the value check afterwards
+                if m._sim_log is not None:
+                    m._sim_log.append(("UX", _freeze(a, k)))
+                raise
+            if m._sim_log is not None:
+                m._sim_log.append(("U", _freeze(a, k)))
+            return out
+
+        def revert(*a, **k):
+            if m._sim_log is not None:
+                m._sim_log.append(("R", _freeze(a, k)))
+            return real_revert(*a, **k)
+
+        def get():
+            v = real_get()
+            if m._sim_log is not None:
+                m._sim_log.append(("G", v))
+            return v
+
+        m.update, m.revert, m.get = update, revert, get
+        return m
 
 
-def rec_metric_class(cls):
-    rc = _REC_CACHE.get(cls)
+_SUBCLASS_CACHE = {}
+
+
+def rec_metric_subclass(cls):
+    """Second recorder style: a dynamic subclass of the metric class (methods logged at class level).  Instances carry
+    no reference cycle, so they are released - and their addresses reused - as promptly as plain metrics; the price is
+    that `type(m)` is not the metric class itself.  Runs alternate between the two styles."""
+    rc = _SUBCLASS_CACHE.get(cls)
     if rc is None:
         class RecMetric(cls):
             _sim_log = None
@@ -77,8 +126,6 @@ def rec_metric_class(cls):
                 try:
                     out = cls.update(self, *a, **k)
                 except Exception:
-                    # a rejected update (the validation probe feeds a scalar to a dict metric on purpose) is not
-                    # an applied one; whether it left the metric dirty is judged by the value check afterwards
                     if self._sim_log is not None:
                         self._sim_log.append(("UX", _freeze(a, k)))
                     raise
@@ -96,10 +143,14 @@ def rec_metric_class(cls):
                 if self._sim_log is not None:
                     self._sim_log.append(("G", v))
                 return v
-        RecMetric.__name__ = cls.__name__      # river derives names from the class name
+        RecMetric.__name__ = cls.__name__
         RecMetric.__qualname__ = cls.__qualname__
-        rc = _REC_CACHE[cls] = RecMetric
+        rc = _SUBCLASS_CACHE[cls] = RecMetric
     return rc
+
+
+def rec_metric_class(cls, style="instance"):
+    return rec_metric_subclass(cls) if style == "subclass" else _Recorder(cls)
 
 
 def _freeze(a, k):
@@ -174,7 +225,8 @@ def gen_plan(rng, prop, run_index):
             ops.append({"op": "construct", "what": rng.choice(["validate", "pfi", "sage", "batch"])})
         else:
             ops.append({"op": "observe"})
-    cfg = {"metric": info, "parties": parties, "seed": rng.getrandbits(32)}
+    cfg = {"metric": info, "parties": parties, "seed": rng.getrandbits(32),
+           "recorder": "subclass" if (run_index // len(metrics)) % 2 else "instance"}
     if rng.random() < 0.35:
         cfg["churn"] = rng.randint(1, 3)
     return {"property": prop, "kind": "metric",
@@ -213,22 +265,28 @@ def run_metric_plan(plan):
 
     seams.reseed(plan.get("rs0", 1))
     log = []
+    style = cfg.get("recorder", "instance")
     if cfg.get("churn"):
         # Other metric objects of both input kinds are validated and released before this run's metric exists: results
         # must not depend on library objects created or used before, nor on object identities.  The metric of the OTHER
         # input kind is released last, immediately before this run's metric is allocated (address reuse is likely).
         other_kind = rm.MAE if info["dict_input"] else rm.CrossEntropy
         tmp = None
-        for _ in range(cfg["churn"]):
-            for other in (cls, other_kind):
-                try:
-                    tmp = rec_metric_class(other)(**(info["args"] if other is cls else {}))
-                    validate_loss_function(tmp)
-                except Exception:  # noqa: BLE001
-                    pass
+        held = []
+        for _ in range(32 * cfg["churn"]):
+            try:
+                if style == "subclass":
+                    tmp = rec_metric_subclass(other_kind)()
+                else:
+                    tmp = other_kind()                 # plain instances: released by reference counting
+                validate_loss_function(tmp)
+                held.append(tmp)
+            except Exception:  # noqa: BLE001
+                pass
         tmp = None
+        del held[:]            # all of them released at once, immediately before this run's metric is allocated
     try:
-        metric = rec_metric_class(cls)(**info["args"])
+        metric = rec_metric_class(cls, style)(**info["args"])
         initial = cls(**info["args"]).get()
     except Exception as exc:  # noqa: BLE001
         res["aborted"] = "setup %s: %s" % (type(exc).__name__, str(exc)[:80])
@@ -451,6 +509,9 @@ class C13Check(Check):
             "and observation); non-trivial = at least one loss evaluation judged; distinct = digest of the metric-seam log")
     assumptions = ["river's own update/revert are trusted to be inverse up to rounding (values compared to 1e-9 relative)",
                    "value domains are chosen per metric family; a pair the fresh metric itself rejects aborts the run"]
+
+    # violations that hinge on object identities (address reuse) depend on the heap of the interpreter that runs them
+    replay_attempts = 3
 
     def n_runs(self, tier):
         return self.runs[tier]
